@@ -108,6 +108,13 @@ func C05(c *Ctx) {
 		return
 	}
 	call := calls[0]
+	// the helpers Walk may be split into (the helper that takes the step, if any, stays opaque: its result is the stride)
+	var scope []*ssa.Function
+	for _, f := range walkScope(walk, step) {
+		if f == walk || f != call.Common().StaticCallee() {
+			scope = append(scope, f)
+		}
+	}
 	loops := flow.Loops(walk)
 	L := flow.InnermostLoop(loops, call.Block())
 	if L == nil {
@@ -162,6 +169,8 @@ func C05(c *Ctx) {
 		c.R.Break("C05: Step call has %d operands", len(args))
 		return
 	}
+	// the places where Walk states why it stops: stores of Walked.StoppedBecause in Walk, and calls of a helper that stores it
+	reasonStores := walkedStores(walk, scope, "StoppedBecause")
 	// ---- R2 queue
 	var Q *ssa.Phi
 	for _, p := range headerPhis(L) {
@@ -181,13 +190,18 @@ func C05(c *Ctx) {
 		_, back := splitPhi(L, Q)
 		var pops []*ssa.Slice
 		okDefs := true
+		// isQ: the loop-carried queue itself, or the parameter of a helper that is handed nothing but the queue
+		isQ := func(v ssa.Value) bool {
+			ds := defsUpTo(v, Q, scope)
+			return len(ds) == 1 && ds[0] == ssa.Value(Q)
+		}
 		for _, bv := range back {
-			for _, d := range phiDefs(bv, map[ssa.Value]bool{Q: true}, map[ssa.Value]bool{}) {
+			for _, d := range defsUpTo(bv, Q, scope) {
 				if d == ssa.Value(Q) {
 					continue
 				}
 				sl, ok := d.(*ssa.Slice)
-				if ok && sl.X == ssa.Value(Q) && sl.High == nil && sl.Max == nil {
+				if ok && isQ(sl.X) && sl.High == nil && sl.Max == nil {
 					if n, isC := ssau.ConstInt(sl.Low); isC && n == 1 {
 						pops = append(pops, sl)
 						continue
@@ -219,7 +233,7 @@ func C05(c *Ctx) {
 					if other == ssa.Value(pop) {
 						other = p.Edges[1]
 					}
-					if other == ssa.Value(Q) {
+					if isQ(other) {
 						merged = true
 					}
 				}
@@ -227,7 +241,7 @@ func C05(c *Ctx) {
 			c.R.Check(merged, "C05-R2", "Walk: consumed messages are always popped", c.pos(pop), "the not-consumed edge keeps the queue, the consumed edge pops", "a consumed message is not always removed (or an unconsumed one is)")
 		}
 		// message offered = Q[0]
-		offered := phiDefs(args[3], nil, map[ssa.Value]bool{})
+		offered := deepDefs(args[3], scope)
 		okOff := len(offered) > 0
 		for _, d := range offered {
 			if ssau.IsNilConst(d) {
@@ -239,7 +253,7 @@ func C05(c *Ctx) {
 				continue
 			}
 			ia, ok := ld.X.(*ssa.IndexAddr)
-			if !ok || ia.X != ssa.Value(Q) {
+			if !ok || !isQ(ia.X) {
 				okOff = false
 				continue
 			}
@@ -251,23 +265,24 @@ func C05(c *Ctx) {
 
 		// ---- R3 remainder
 		n3 := 0
-		ssau.Instrs(walk, func(in ssa.Instruction) {
-			st, ok := in.(*ssa.Store)
-			if !ok || !ssau.IsField(st.Addr, prog.Abs("core"), "Walked", "Remaining") {
-				return
-			}
-			reason := stopReasonAt(st.Block())
+		for _, ws := range walkedStores(walk, scope, "Remaining") {
+			st := ws.site
+			reason := stopReasonAt(st.Block(), reasonStores)
 			n3++
 			key := fmt.Sprintf("Walk: Remaining store #%d (reason %s)", n3, reason)
 			if reason == "0" {
 				// Done: remainder dropped by design (terminal node) or empty
 				c.R.Discharge("C05-R3", key, c.pos(st), "reported with Done")
-				return
+				continue
 			}
 			// current queue at this point: Q before the step in this iteration, the merge phi after it
-			cur := currentQueue(Q, L, call, st.Block())
-			c.R.Check(st.Val == cur, "C05-R3", key, c.pos(st), "Remaining is the loop-carried queue current at this exit", fmt.Sprintf("Remaining is %s, not the current unconsumed remainder %s", st.Val.Name(), cur.Name()))
-		})
+			cur := currentQueue(Q, L, call, st.Block(), scope)
+			vn := "a value of the helper that stores it"
+			if ws.val != nil {
+				vn = ws.val.Name()
+			}
+			c.R.Check(ws.val == cur, "C05-R3", key, c.pos(st), "Remaining is the loop-carried queue current at this exit", fmt.Sprintf("Remaining is %s, not the current unconsumed remainder %s", vn, cur.Name()))
+		}
 		if n3 == 0 {
 			c.R.Break("C05-R3: no store to Walked.Remaining in Walk")
 		}
@@ -287,19 +302,25 @@ func C05(c *Ctx) {
 		}
 		okBack := len(back) > 0
 		stateCopy := c.P.Func("core", "State", "Copy")
+		var scope4 []*ssa.Function // State.Copy is a definition here, not a helper to look into
+		for _, f := range scope {
+			if f != stateCopy {
+				scope4 = append(scope4, f)
+			}
+		}
 		for _, bv := range back {
-			for _, d := range phiDefs(bv, map[ssa.Value]bool{S: true}, map[ssa.Value]bool{}) {
+			for _, d := range defsUpTo(bv, S, scope4) {
 				if d == ssa.Value(S) {
 					continue
 				}
 				cl, ok := d.(*ssa.Call)
 				if ok && cl.Common().StaticCallee() == stateCopy && len(cl.Common().Args) == 1 {
-					if base, is := isFieldLoad(cl.Common().Args[0], "core", "Stride", "To"); is && derivesFromCall(base, call) {
+					if base, is := isFieldLoad(cl.Common().Args[0], "core", "Stride", "To"); is && derivesFromCall(base, call, scope) {
 						continue
 					}
 				}
 				// also accept the stride's To itself
-				if base, is := isFieldLoad(d, "core", "Stride", "To"); is && derivesFromCall(base, call) {
+				if base, is := isFieldLoad(d, "core", "Stride", "To"); is && derivesFromCall(base, call, scope) {
 					continue
 				}
 				okBack = false
@@ -309,24 +330,51 @@ func C05(c *Ctx) {
 	}
 	// ---- R5 stop reasons
 	n5 := 0
-	ssau.Instrs(walk, func(in ssa.Instruction) {
-		st, ok := in.(*ssa.Store)
-		if !ok || !ssau.IsField(st.Addr, prog.Abs("core"), "Walked", "StoppedBecause") {
-			return
-		}
+	for _, ws := range reasonStores {
+		st := ws.site
 		n5++
-		v, isC := ssau.ConstInt(st.Val)
+		var v int64
+		isC := false
+		if ws.val != nil {
+			v, isC = ssau.ConstInt(ws.val)
+		}
 		key := fmt.Sprintf("Walk: StoppedBecause=%d #%d", v, n5)
 		if !isC {
 			c.R.Violate("C05-R5", key, c.pos(st), "stop reason is not a constant")
-			return
+			continue
 		}
 		switch v {
 		case 0: // Done
 			ok := false
-			for _, f := range flow.FactsAt(st.Block()) {
-				if b, isB := f.Cond.(*ssa.BinOp); isB && ssau.IsNilConst(b.Y) {
-					if base, is := isFieldLoad(b.X, "core", "Stride", "To"); is && derivesFromCall(base, call) && ((b.Op == token.EQL && f.True) || (b.Op == token.NEQ && !f.True)) {
+			wentNowhere := func(b *ssa.BasicBlock, extra []flow.Fact) bool {
+				for _, f := range append(flow.FactsAt(b), extra...) {
+					if b, isB := f.Cond.(*ssa.BinOp); isB && ssau.IsNilConst(b.Y) {
+						if base, is := isFieldLoad(b.X, "core", "Stride", "To"); is && derivesFromCall(base, call, scope) && ((b.Op == token.EQL && f.True) || (b.Op == token.NEQ && !f.True)) {
+							return true
+						}
+					}
+				}
+				return false
+			}
+			ok = wentNowhere(st.Block(), nil)
+			if !ok {
+				// the test may live in a helper that reports "done" only where the stride went nowhere
+				for _, ct := range factCallTrueIdx(st.Block()) {
+					h := ct.call.Common().StaticCallee()
+					if h == nil || h == call.Common().StaticCallee() {
+						continue
+					}
+					inScope := false
+					for _, f := range scope {
+						if f == h {
+							inScope = true
+						}
+					}
+					ri := ct.idx
+					if ri < 0 {
+						ri = 0
+					}
+					if inScope && trueImplies(h, ri, wentNowhere) {
 						ok = true
 					}
 				}
@@ -367,7 +415,7 @@ func C05(c *Ctx) {
 			}
 			c.R.Check(ok, "C05-R5", key, c.pos(st), "BreakpointReached only under a breakpoint's true verdict", "BreakpointReached is reported without a breakpoint returning true")
 		}
-	})
+	}
 	if n5 == 0 {
 		c.R.Break("C05-R5: no store to Walked.StoppedBecause in Walk")
 	}
@@ -392,26 +440,25 @@ func C05(c *Ctx) {
 		}
 		n11++
 		stated := false
-		ssau.Instrs(walk, func(in ssa.Instruction) {
-			st, ok := in.(*ssa.Store)
-			if !ok || !ssau.IsField(st.Addr, prog.Abs("core"), "Walked", "StoppedBecause") {
-				return
+		for _, ws := range reasonStores {
+			if !ws.always {
+				continue
 			}
-			if st.Block() == b || (st.Block().Dominates(b) && !onCycle(st.Block())) {
+			if ws.site.Block() == b || (ws.site.Block().Dominates(b) && !onCycle(ws.site.Block())) {
 				stated = true
 			}
-		})
+		}
 		c.R.Check(stated, "C05-R11", fmt.Sprintf("Walk: successful return #%d states its stop reason", n11), c.pos(ret), "a StoppedBecause store on the way out (in the returning block, or in a dominating block outside every cycle)", "Walk returns without storing why it stopped: the caller reads the zero value (Done, nothing remaining) although the machine may still be able to step and messages may be unconsumed")
 	}
 	_ = strings.Join
 }
 
 // stopReasonAt: the constant stored into Walked.StoppedBecause in this block ("" if none).
-func stopReasonAt(b *ssa.BasicBlock) string {
+func stopReasonAt(b *ssa.BasicBlock, reasonStores []walkedStore) string {
 	r := "?"
-	for _, in := range b.Instrs {
-		if st, ok := in.(*ssa.Store); ok && ssau.IsField(st.Addr, prog.Abs("core"), "Walked", "StoppedBecause") {
-			if v, isC := ssau.ConstInt(st.Val); isC {
+	for _, ws := range reasonStores {
+		if ws.site.Block() == b && ws.val != nil {
+			if v, isC := ssau.ConstInt(ws.val); isC {
 				r = fmt.Sprint(v)
 			}
 		}
@@ -419,9 +466,145 @@ func stopReasonAt(b *ssa.BasicBlock) string {
 	return r
 }
 
+// walkScope: Walk first, then the other functions of package core in its call closure except Step — the helpers
+// Walk may be split into.  Step's results are leaves for deepDefs in this scope.
+func walkScope(walk, step *ssa.Function) []*ssa.Function {
+	out := []*ssa.Function{walk}
+	for _, f := range pkgClosure(walk) {
+		if f != walk && f != step && prog.PkgOf(f) == "core" {
+			out = append(out, f)
+		}
+	}
+	return out
+}
+
+// walkedStore is a place in Walk where a field of the Walked record is set: a store in Walk itself, or the call (in
+// Walk) of a helper that stores into the field.
+type walkedStore struct {
+	site   ssa.Instruction // the store, or the call of the helper
+	val    ssa.Value       // the value stored, as a value of Walk: a constant, or the argument handed to the helper (nil: neither)
+	always bool            // the field is set whenever site is executed
+}
+
+// walkedStores lists them in the order of Walk's instructions.
+func walkedStores(walk *ssa.Function, scope []*ssa.Function, field string) []walkedStore {
+	inScope := map[*ssa.Function]bool{}
+	for _, f := range scope {
+		inScope[f] = true
+	}
+	var out []walkedStore
+	ssau.Instrs(walk, func(in ssa.Instruction) {
+		if st, ok := in.(*ssa.Store); ok && ssau.IsField(st.Addr, prog.Abs("core"), "Walked", field) {
+			out = append(out, walkedStore{st, st.Val, true})
+			return
+		}
+		ci, ok := in.(*ssa.Call)
+		if !ok {
+			return
+		}
+		h := ci.Common().StaticCallee()
+		if h == nil || h.Blocks == nil || h == walk || !inScope[h] {
+			return
+		}
+		for _, st := range storesTo(h, "Walked", field) {
+			ws := walkedStore{site: ci}
+			switch x := st.Val.(type) {
+			case *ssa.Const:
+				ws.val = x
+			case *ssa.Parameter:
+				for i, hp := range h.Params {
+					if hp == x && i < len(ci.Common().Args) {
+						ws.val = ci.Common().Args[i]
+					}
+				}
+			}
+			ws.always = !flow.InCycle(st.Block())
+			for _, b := range h.Blocks {
+				if _, isRet := b.Instrs[len(b.Instrs)-1].(*ssa.Return); isRet && !st.Block().Dominates(b) {
+					ws.always = false
+				}
+			}
+			out = append(out, ws)
+		}
+	})
+	return out
+}
+
+// defsUpTo resolves v to its definitions through phis, through the results of the helpers in scope (into their
+// returns) and through the parameters of those helpers (back to the arguments at their call sites in scope), but not
+// beyond the value `stop` (a loop-carried phi of Walk): what a value "is" in terms of the current iteration.
+func defsUpTo(v ssa.Value, stop ssa.Value, scope []*ssa.Function) []ssa.Value {
+	inScope := map[*ssa.Function]bool{}
+	for _, f := range scope {
+		inScope[f] = true
+	}
+	seen := map[ssa.Value]bool{}
+	var out []ssa.Value
+	var rec func(v ssa.Value, depth int)
+	rets := func(h *ssa.Function, idx int, depth int) {
+		for _, b := range h.Blocks {
+			if ret, ok := b.Instrs[len(b.Instrs)-1].(*ssa.Return); ok && idx < len(ret.Results) {
+				rec(ret.Results[idx], depth+1)
+			}
+		}
+	}
+	rec = func(v ssa.Value, depth int) {
+		if v == nil || seen[v] || depth > 12 {
+			return
+		}
+		seen[v] = true
+		if v == stop {
+			out = append(out, v)
+			return
+		}
+		switch x := v.(type) {
+		case *ssa.Phi:
+			for _, e := range x.Edges {
+				rec(e, depth+1)
+			}
+			return
+		case *ssa.Call:
+			if h := x.Common().StaticCallee(); h != nil && h.Blocks != nil && inScope[h] && h != scope[0] && h.Signature.Results().Len() == 1 {
+				rets(h, 0, depth)
+				return
+			}
+		case *ssa.Extract:
+			if cl, ok := x.Tuple.(*ssa.Call); ok {
+				if h := cl.Common().StaticCallee(); h != nil && h.Blocks != nil && inScope[h] && h != scope[0] {
+					rets(h, x.Index, depth)
+					return
+				}
+			}
+		case *ssa.Parameter:
+			fn := x.Parent()
+			if fn != scope[0] && inScope[fn] {
+				sites := callSitesOf(fn, scope)
+				n := 0
+				for i, p := range fn.Params {
+					if p != x {
+						continue
+					}
+					for _, s := range sites {
+						if i < len(s.Common().Args) {
+							n++
+							rec(s.Common().Args[i], depth+1)
+						}
+					}
+				}
+				if n > 0 {
+					return
+				}
+			}
+		}
+		out = append(out, v)
+	}
+	rec(v, 0)
+	return out
+}
+
 // currentQueue: the SSA value of the queue at block b: the header phi before the
 // Step call of the iteration, the pop-merge phi after it.
-func currentQueue(Q *ssa.Phi, L *flow.Loop, call *ssa.Call, b *ssa.BasicBlock) ssa.Value {
+func currentQueue(Q *ssa.Phi, L *flow.Loop, call *ssa.Call, b *ssa.BasicBlock, scope []*ssa.Function) ssa.Value {
 	if !L.Blocks[b] {
 		return Q // after the loop: value at the header
 	}
@@ -440,12 +623,46 @@ func currentQueue(Q *ssa.Phi, L *flow.Loop, call *ssa.Call, b *ssa.BasicBlock) s
 			}
 		}
 	}
+	// the pop may be done by a helper that is handed the queue and returns the new one
+	for _, r := range ssau.Referrers(Q) {
+		cl, ok := r.(*ssa.Call)
+		if !ok || cl.Common().StaticCallee() == nil || !L.Blocks[cl.Block()] || !after[cl.Block()] && cl.Block() != call.Block() {
+			continue
+		}
+		var res []ssa.Value
+		if cl.Common().StaticCallee().Signature.Results().Len() == 1 {
+			res = append(res, cl)
+		}
+		for _, r2 := range ssau.Referrers(cl) {
+			if ex, isEx := r2.(*ssa.Extract); isEx {
+				res = append(res, ex)
+			}
+		}
+		for _, rv := range res {
+			if !types.Identical(rv.Type(), Q.Type()) {
+				continue
+			}
+			// ... the queue itself or the queue without its first element
+			hasPop := false
+			for _, d := range defsUpTo(rv, Q, scope) {
+				if sl, isSl := d.(*ssa.Slice); isSl {
+					if xs := defsUpTo(sl.X, Q, scope); len(xs) == 1 && xs[0] == ssa.Value(Q) {
+						hasPop = true
+					}
+				}
+			}
+			if in, isIn := rv.(ssa.Instruction); isIn && hasPop && (in.Block().Dominates(b) || in.Block() == b) {
+				return rv
+			}
+		}
+	}
 	return Q
 }
 
-// derivesFromCall: v is result #0 of call, possibly through phis with other fresh strides.
-func derivesFromCall(v ssa.Value, call *ssa.Call) bool {
-	for _, d := range phiDefs(v, nil, map[ssa.Value]bool{}) {
+// derivesFromCall: v is result #0 of call, possibly through phis with other fresh strides and through helpers in
+// scope that hand the stride on (`stride, err = ensureStride(st, stride, err)`).
+func derivesFromCall(v ssa.Value, call *ssa.Call, scope []*ssa.Function) bool {
+	for _, d := range deepDefs(v, scope) {
 		if ex, ok := d.(*ssa.Extract); ok && ex.Tuple == ssa.Value(call) && ex.Index == 0 {
 			return true
 		}
